@@ -186,6 +186,10 @@ class Translator:
             r = self.call_hook(n, self)
             if r is not None:
                 return r
+        if not isinstance(n.func, (ast.Name, ast.Attribute)):
+            # call of a computed callee, e.g. REGISTER[key](args)
+            return sp.Function("call")(self.tr(n.func), *[self.tr(a) for a in n.args if not isinstance(a, ast.Starred)],
+                                       *[sp.Function("kw_" + k.arg)(self.tr(k.value)) for k in n.keywords if k.arg])
         name = call_name(n)
         d = dotted(n.func) or name or "?"
         args = [a for a in n.args if not isinstance(a, ast.Starred)]
